@@ -260,6 +260,10 @@ def judge_c02(rec):
     ncleanup = sum(1 for e in rec['events'] if e[0] == 'cleanup')
     if ncleanup != 1:
         bad('cleanup-count', 'registered cleanup ran %d times' % ncleanup)
+    if rec['case'].get('failing_cleanups'):
+        nafter = sum(1 for e in rec['events'] if e[0] == 'cleanup-after-failing')
+        if nafter != 1:
+            bad('cleanup-count', 'the cleanup registered after the failing ones ran %d times' % nafter)
     if rec['case'].get('cleanup_chain'):
         n1 = sum(1 for e in rec['events'] if e[0] == 'cleanup-first')
         n2 = sum(1 for e in rec['events'] if e[0] == 'cleanup-late')
